@@ -1003,9 +1003,8 @@ func (g *gctx) ifStmt() (*Stmt, bool) {
 		if !term {
 			if els := g.mirror(then, declared(then)); len(els) > 0 {
 				s.Else = els
-				// Same assignments: the same variables are
-				// (non-)constant as on the then path.
-				g.scopes = cloneScopes(surviving[0])
+				// mirror tracked which variables are constant
+				// on this path (g.scopes).
 				break
 			}
 		}
@@ -1086,7 +1085,11 @@ func exprRefs(e *Expr, names map[string]bool) bool {
 
 // mirror copies the assignments of a statement list, dropping declarations and
 // everything that refers to names declared in the original, and replaces the
-// conditions of nested ifs by fresh ones.
+// conditions of nested ifs by fresh ones.  The copies are re-validated against
+// the constant tracking of the path they are copied to (g.scopes): a variable
+// that was dynamic where the original stands (for example assigned in a loop
+// that is not copied) may be a constant here, and an operator applied to two
+// constants is outside the generated language.
 func (g *gctx) mirror(list []*Stmt, local map[string]bool) []*Stmt {
 	var res []*Stmt
 	for _, s := range list {
@@ -1095,18 +1098,103 @@ func (g *gctx) mirror(list []*Stmt, local map[string]bool) []*Stmt {
 			if local[s.Name] || exprRefs(s.E, local) || (s.LoopIdx != "" && local[s.LoopIdx]) {
 				continue
 			}
+			dyn, ok := g.exprDyn(s.E)
+			tv := g.lookup(s.Name)
+			if !ok || tv == nil {
+				continue
+			}
+			switch s.K {
+			case SAssign:
+				tv.Dyn = dyn
+			case SOpAssign:
+				if !tv.Dyn && !dyn {
+					continue
+				}
+				tv.Dyn = true
+			}
 			cp := *s
 			res = append(res, &cp)
 		case SIf:
+			// The fresh condition is evaluated before the arms: draw
+			// it under the tracking of this point.
+			cond, _ := g.boolExpr(g.intn(0, g.o.MaxDepth, "mirrorcond"), true)
+			pre := cloneScopes(g.scopes)
 			inner := g.mirror(s.Then, local)
 			if len(inner) == 0 {
+				g.scopes = pre
 				continue
 			}
-			cond, _ := g.boolExpr(g.intn(0, g.o.MaxDepth, "mirrorcond"), true)
-			res = append(res, &Stmt{K: SIf, E: cond, Then: inner, Else: g.mirror(s.Else, local)})
+			thenScopes := g.scopes
+			g.scopes = cloneScopes(pre)
+			els := g.mirror(s.Else, local)
+			for i := range g.scopes {
+				for name, v := range g.scopes[i] {
+					if ov, ok := thenScopes[i][name]; ok {
+						v.Dyn = v.Dyn && ov.Dyn
+					}
+				}
+			}
+			res = append(res, &Stmt{K: SIf, E: cond, Then: inner, Else: els})
 		}
 	}
 	return res
+}
+
+// exprDyn re-derives, under the constant tracking of the current path, whether
+// an expression is certainly dynamic, and whether it obeys the generator's rule
+// that an arithmetic or bitwise operator has at least one dynamic operand.
+func (g *gctx) exprDyn(e *Expr) (dyn, ok bool) {
+	if e == nil {
+		return false, true
+	}
+	switch e.Op {
+	case ELit, ELoopVar:
+		return false, true
+	case EVar:
+		v := g.lookup(e.Name)
+		if v == nil {
+			return false, false
+		}
+		return v.Dyn, true
+	case ECast, EUn:
+		return g.exprDyn(e.A[0])
+	case EIndex:
+		v := g.lookup(e.A[0].Name)
+		if e.A[0].Op != EVar || v == nil {
+			return false, false
+		}
+		return v.RO && e.Name == "", true
+	case EDynIndex:
+		_, ok := g.exprDyn(e.A[1])
+		return false, ok
+	case EField:
+		v := g.lookup(e.A[0].Name)
+		if e.A[0].Op != EVar || v == nil {
+			return false, false
+		}
+		return v.RO || v.Param, true
+	case ECall:
+		for _, a := range e.A {
+			if _, ok := g.exprDyn(a); !ok {
+				return false, false
+			}
+		}
+		return true, true
+	case EBin:
+		ld, lok := g.exprDyn(e.A[0])
+		rd, rok := g.exprDyn(e.A[1])
+		if !lok || !rok {
+			return false, false
+		}
+		switch e.Name {
+		case "<<", ">>":
+			return ld, true
+		case "==", "!=", "<", "<=", ">", ">=", "&&", "||":
+			return ld || rd, true
+		}
+		return true, ld || rd
+	}
+	return false, false
 }
 
 // returnable tells whether a return statement can be generated here (array
